@@ -106,6 +106,9 @@ class CallGraph:
             self._resolve(f, c, t)
             for a in t["args"]:
                 l = None
+                if a["k"] == "const" and a.get("fndef") in self.fns:
+                    # a function item handed over as a value (`.map(cfb_uppercase_unit)`): it will be called
+                    c.closures.append(self.fns[a["fndef"]])
                 if a["k"] in ("copy", "move"):
                     l = a["place"]["local"] if not a["place"]["proj"] else None
                     ty = None
